@@ -57,12 +57,18 @@ CONSTANTS Threads,      \* client threads
           MaxCancel, MaxTest, MaxWait, MaxPerform,   \* bounds on API calls (model checking only; -1 = unbounded)
           Fine,         \* TRUE: pure control steps (returns, end of the group wake) are separate steps, as
                         \*   trace validation needs them; FALSE: merged into the preceding access (model checking)
-          Mut           \* "none" or the name of a spec mutation (non-vacuity runs)
+          Dev,          \* observed deviations of the code (DESIGN 6, V3): point-wise overrides [act, old, new] of the
+                        \*   word function of an action on dbpd_atomic_flags; {} = the code as transcribed
+          Mut           \* "none" or the name of a spec mutation (non-vacuity runs) / of a named deviation
 
 CANCELED == 1  WAITING == 2  WAITED == 4  PERFORM == 8
 Has(w, b) == (w \div b) % 2 = 1
 Or(w, b)  == IF Has(w, b) THEN w ELSE w + b
 Clr(w, b) == IF Has(w, b) THEN w - b ELSE w
+
+\* new value of dbpd_atomic_flags written by action `act`: as transcribed unless a deviation overrides it
+AFNew(act, w, dflt) == IF \E d \in Dev : d.act = act /\ d.old = w
+                         THEN (CHOOSE d \in Dev : d.act = act /\ d.old = w).new ELSE dflt
 
 QApis == {"async", "gasync", "sync"}       \* submissions that go through the queue
 Kinds == {"now", "timed", "forever"}
@@ -191,8 +197,20 @@ CallNotify(t, n) ==
 (* --------------------------------- dispatch_block_cancel --------------------------------- *)
 \* (void)os_atomic_or2o(dbpd, dbpd_atomic_flags, DBF_CANCELED, relaxed);
 C_Or(t) ==
-    /\ pc[t] = "c_or"
-    /\ af' = IF Mut = "cancel_wrong_bit" THEN Or(af, WAITED) ELSE Or(af, CANCELED)
+    /\ pc[t] = "c_or" /\ Mut # "cancel_nonatomic"
+    /\ af' = AFNew("c_or", af, IF Mut = "cancel_wrong_bit" THEN Or(af, WAITED) ELSE Or(af, CANCELED))
+    /\ cancelled' = TRUE
+    /\ Ret(t)
+    /\ UNCHANGED <<cfg, performed, dq, dthr, qref, grpv, envv, inv, cntv,
+                   completed, bodyStarts, bodyEnds, testBad, testFalse, waitedOK, lastTest, wres, crashed>>
+\* named deviation "cancel_nonatomic": dbpd->dbpd_atomic_flags |= DBF_CANCELED as a plain read and a plain write
+C_PlainRead(t) ==
+    /\ pc[t] = "c_or" /\ Mut = "cancel_nonatomic"
+    /\ Set(t, [lv[t] EXCEPT !.perf = af]) /\ Go(t, "c_wr")
+    /\ UNCHANGED <<cfg, blkv, grpv, envv, inv, cntv, ghov>>
+C_PlainWrite(t) ==
+    /\ pc[t] = "c_wr"
+    /\ af' = Or(lv[t].perf, CANCELED)
     /\ cancelled' = TRUE
     /\ Ret(t)
     /\ UNCHANGED <<cfg, performed, dq, dthr, qref, grpv, envv, inv, cntv,
@@ -214,7 +232,7 @@ T_Read(t) ==
 \* if (flags & (DBF_WAITED | DBF_WAITING)) DISPATCH_CLIENT_CRASH("... waited for more than once")
 W_Or(t) ==
     /\ pc[t] = "w_or"
-    /\ af' = Or(af, WAITING)
+    /\ af' = AFNew("w_or", af, Or(af, WAITING))
     /\ IF Has(af, WAITED) \/ Has(af, WAITING) THEN Crash("waited_more_than_once") ELSE crashed' = crashed
     /\ Go(t, "w_xchg")
     /\ UNCHANGED <<cfg, performed, dq, dthr, qref, grpv, envv, lv, inv, cntv,
@@ -271,8 +289,8 @@ W_Timeout(t) ==
 W_Fin(t) ==
     /\ pc[t] = "w_fin"
     /\ af' = IF wres.rc # 0
-               THEN (IF Mut = "timeout_clobber" THEN 0 ELSE Clr(af, WAITING))
-               ELSE Or(af, WAITED)
+               THEN AFNew("w_fin_to", af, IF Mut = "timeout_clobber" THEN 0 ELSE Clr(af, WAITING))
+               ELSE AFNew("w_fin_ok", af, Or(af, WAITED))
     /\ waitedOK' = (waitedOK \/ wres.rc = 0)
     /\ Ret(t)
     /\ UNCHANGED <<cfg, performed, dq, dthr, qref, grpv, envv, inv, cntv,
@@ -456,7 +474,7 @@ Call(t) == \/ \E a \in Apis : CallSubmit(t, a)
            \/ \E k \in Kinds : CallWait(t, k)
            \/ \E n \in NIds : CallNotify(t, n)
 
-Lib(t) == \/ C_Or(t) \/ T_Read(t)
+Lib(t) == \/ C_Or(t) \/ C_PlainRead(t) \/ C_PlainWrite(t) \/ T_Read(t)
           \/ W_Or(t) \/ W_Xchg(t) \/ W_ReadThr(t) \/ W_LoadPerf(t) \/ W_GCheck(t) \/ W_Wake(t) \/ W_Timeout(t) \/ W_Fin(t)
           \/ N_Load(t) \/ N_Reg(t) \/ N_Ret(t)
           \/ S_Cas(t) \/ S_Push(t) \/ SubmitRet(t)
@@ -479,7 +497,7 @@ FairSpec == /\ Spec
             /\ WF_vars(Env)
 
 (* ----------------------------------- properties (C19) ----------------------------------- *)
-PcSet == {"idle", "s_cas", "s_push", "s_ret", "in_inv", "c_or", "t_read",
+PcSet == {"idle", "s_cas", "s_push", "s_ret", "in_inv", "c_or", "c_wr", "t_read",
           "w_or", "w_xchg", "w_thr", "w_load", "w_gcheck", "w_sleep", "w_fin",
           "n_load", "n_reg", "n_ret", "p_read", "p_body", "p_bodyrun", "p_out"}
 IPcSet == {"none", "ready", "i_read", "i_setthr", "i_body", "i_bodyrun", "i_inc", "i_leave", "i_wake",
